@@ -462,6 +462,7 @@ class Unit:
         self.parts = []  # ('text', str) | ('struct', rel, name, kw) | ('impl', header, [Fn]) | ('fn', Fn)
         self.type_rewrites = []  # (regex, repl, why) applied to every extracted signature/body/struct
         self.witnesses = []  # names of proof fns that are reachability witnesses
+        self.pre_rewrites = []  # (regex, repl, why) applied to every extracted body BEFORE the global rules
         self.label_props = {}  # label prefix -> [property ids] (longest prefix wins)
         self.rlimit = 30
 
@@ -601,7 +602,10 @@ class Emitter:
         ft = find_fn(block, f.name, what)
         fnq = f"{implname}::{f.name}" if implname else f.name
         counts = {}
-        body = apply_rules(ft.body, counts)
+        body0 = ft.body
+        for pat, repl, _ in self.unit.pre_rewrites:
+            body0 = re.sub(pat, repl, body0, flags=re.S)
+        body = apply_rules(body0, counts)
         for k, v in counts.items():
             self.rule_counts[k] = self.rule_counts.get(k, 0) + v
         for pat, repl, why in f.rewrites:
